@@ -18,14 +18,14 @@ use crate::{
 };
 
 #[derive(Clone)]
-struct Member {
-    st: RangeStatement<F>,
-    rp: RefProof,
-    marker: fg::BasisId,
-    ctx: Ctx,
+pub struct Member {
+    pub st: RangeStatement<F>,
+    pub rp: RefProof,
+    pub marker: fg::BasisId,
+    pub ctx: Ctx,
 }
 
-fn member(pos: usize, m: usize, d: usize, tag: &str) -> Member {
+pub fn member(pos: usize, m: usize, d: usize, tag: &str) -> Member {
     let cfg = Cfg::new(2, m, m, d);
     let wit = Wit {
         values: (0..m).map(|j| ((pos + j) as u64) & 3).collect(),
@@ -49,19 +49,19 @@ fn member(pos: usize, m: usize, d: usize, tag: &str) -> Member {
     }
 }
 
-struct Observation {
-    accepted: bool,
+pub struct Observation {
+    pub accepted: bool,
     /// weight of each member (coefficient of its marker), None if no final comparison was reached
-    weights: Option<Vec<Scalar>>,
-    residual: Option<F>,
-    describe: String,
+    pub weights: Option<Vec<Scalar>>,
+    pub residual: Option<F>,
+    pub describe: String,
 }
 
 fn observe(batch: &[Member]) -> Observation {
     observe_mode(batch, VerifyAction::VerifyOnly)
 }
 
-fn observe_mode(batch: &[Member], mode: VerifyAction) -> Observation {
+pub fn observe_mode(batch: &[Member], mode: VerifyAction) -> Observation {
     let sts: Vec<RangeStatement<F>> = batch.iter().map(|m| m.st.clone()).collect();
     let proofs: Vec<_> = batch.iter().map(|m| F::from_bytes(&refbp::ref_encode(&m.rp)).expect("decodes")).collect();
     let mut ts: Vec<Transcript> = batch.iter().map(|m| m.ctx.transcript()).collect();
@@ -100,7 +100,8 @@ fn weights_case(d: usize, size: usize, mixed: bool, mode: VerifyAction) -> Box<d
         let w = match &base.weights {
             Some(w) => w.clone(),
             None => {
-                res.machinery_error(format!("no compared element observed for a marked batch: {}", base.describe));
+                // the verifier never compared anything (e.g. it accepted outright): C02 / C05's finding
+                res.outcome = "no-compared-element(skipped)".into();
                 return res;
             },
         };
@@ -195,7 +196,7 @@ fn duplicates_case(d: usize, layout: &'static str, mode: VerifyAction) -> Box<dy
         let (wp, wq) = match joint(&base) {
             Some(x) => x,
             None => {
-                res.machinery_error("no compared element observed");
+                res.outcome = "no-compared-element(skipped)".into();
                 return res;
             },
         };
@@ -242,76 +243,93 @@ fn duplicates_case(d: usize, layout: &'static str, mode: VerifyAction) -> Box<dy
     })
 }
 
-/// Adaptive cancellation histories: the attacker knows the algorithm and the weights of all earlier runs
+/// A valid member (no marker)
+pub fn plain_member(pos: usize, m: usize, d: usize) -> Member {
+    let cfg = Cfg::new(2, m, m, d);
+    let wit = Wit {
+        values: (0..m).map(|j| ((pos + j) as u64) & 3).collect(),
+        blindings: (0..m).map(|j| (0..d).map(|k| blinding(3500 + 8 * pos + j, k)).collect()).collect(),
+        promises: vec![None; m],
+        seed: None,
+    };
+    let ctx = contexts()[pos % 6];
+    let built = build_cached::<F>(&cfg, &wit).unwrap();
+    let proof = lib_prove(&built, &ctx, &mut HRng::chacha(300 + pos as u64)).unwrap();
+    Member {
+        st: built.statement.clone(),
+        rp: ref_proof_of(&proof).unwrap(),
+        marker: 0,
+        ctx,
+    }
+}
+
+/// The compared element of a batch of otherwise valid members (None if no final comparison was reached)
+pub fn observe_plain(batch: &[Member], mode: VerifyAction) -> (bool, Option<F>) {
+    let sts: Vec<RangeStatement<F>> = batch.iter().map(|m| m.st.clone()).collect();
+    let proofs: Vec<_> = batch.iter().map(|m| F::from_bytes(&refbp::ref_encode(&m.rp)).expect("decodes")).collect();
+    let mut ts: Vec<Transcript> = batch.iter().map(|m| m.ctx.transcript()).collect();
+    let obs = verify_observed(&sts, &proofs, &mut ts, mode);
+    (obs.is_ok(), obs.residuals.last().cloned())
+}
+
+/// The adaptive attacker: every member is valid except for a shift of one response. Run A shifts member i alone and reads
+/// its factor from the G_k coordinate of the compared element, run B does the same for member j, run C submits both
+/// shifts sized so that they would cancel if the factors of runs A and B were used again. Run C must be rejected with a
+/// nonzero G_k coordinate.
+pub fn three_run_attack(batch: &[Member], i: usize, j: usize, k: usize, mode: VerifyAction, reversed: bool) -> Result<(bool, Scalar), String> {
+    let gk = fg::basis_id(&format!("G{}", k));
+    let t = Scalar::from(0x1f2e3d4cu64);
+    let u = Scalar::from(0x5a6b7c8du64);
+    let read = |b: &[Member], shift: Scalar| -> Result<Scalar, String> {
+        let (ok, r) = observe_plain(b, mode);
+        if ok {
+            return Err("a batch with one shifted response was accepted".into());
+        }
+        let r = r.ok_or("no compared element observed")?;
+        Ok(r.coeff(gk) * shift.invert())
+    };
+    let mut a = batch.to_vec();
+    a[i].rp.d1[k] += t;
+    let wi = read(&a, t)?;
+    let mut b = batch.to_vec();
+    b[j].rp.d1[k] += u;
+    let wj = read(&b, u)?;
+    if wi == Scalar::ZERO || wj == Scalar::ZERO {
+        return Err("a single shifted response left the G_k coordinate at zero (zero factor)".into());
+    }
+    let mut c = batch.to_vec();
+    c[i].rp.d1[k] += t;
+    c[j].rp.d1[k] -= t * wi * wj.invert();
+    if reversed {
+        c.reverse();
+    }
+    let (ok, r) = observe_plain(&c, mode);
+    Ok((ok, r.map(|r| r.coeff(gk)).unwrap_or(Scalar::ZERO)))
+}
+
 fn adaptive_case(d: usize, size: usize, i: usize, j: usize, k: usize, variant: &'static str) -> Box<dyn Case> {
     case(format!("d={}/size={}/adaptive/{}/pair=({},{})/k={}", d, size, variant, i, j, k), move |_v| {
         fg::clear_intern();
         let mut res = CaseResult::new("explored");
-        let mut batch: Vec<Member> = (0..size).map(|p| member(p, 1, d, "a")).collect();
+        let mut batch: Vec<Member> = (0..size).map(|p| plain_member(p, 1, d)).collect();
         if variant == "identical-proofs" {
-            let mut twin = batch[i].clone();
-            let marker = fg::basis(&format!("weight-marker:twin:{}", j));
-            let old = fg::F::unit(batch[i].marker);
-            let b = F::g_decompress(&twin.rp.b).unwrap();
-            let mut nb = b.clone();
-            nb.add_scaled(&old, &(-Scalar::ONE));
-            twin.rp.b = nb.g_add(&marker).g_compress();
-            twin.marker = *marker.0.keys().next().unwrap();
-            batch[j] = twin;
+            batch[j] = batch[i].clone();
         }
-        let gk = fg::basis_id(&format!("G{}", k));
-        // step 0: observe the weights of the untouched batch
-        let mut obs = observe(&batch);
-        res.executions += 1;
-        let mut delta_i = Scalar::ONE;
-        let steps = 3;
-        for step in 1..=steps {
-            let w = match &obs.weights {
-                Some(w) => w.clone(),
-                None => {
-                    res.machinery_error("no weights observed");
-                    return res;
-                },
-            };
-            if w[i] == Scalar::ZERO || w[j] == Scalar::ZERO {
-                res.violate(format!("step{}", step), "zero weight");
-                return res;
-            }
-            // offsetting perturbations computed from the factors observed on the previous run:
-            // w_i * delta_i + w_j * delta_j = 0 if the factors were reused
-            let (di, dj) = match variant {
-                "fix-first-adapt-second" | "identical-proofs" => (delta_i, -(w[i] * delta_i) * w[j].invert()),
-                "symmetric" => (w[j], -w[i]),
-                _ => (delta_i, -(w[i] * delta_i) * w[j].invert()),
-            };
-            let mut b2 = batch.clone();
-            if variant == "reversed-order" {
-                b2.reverse();
-                let (ri, rj) = (size - 1 - i, size - 1 - j);
-                b2[ri].rp.d1[k] += di;
-                b2[rj].rp.d1[k] += dj;
-            } else {
-                b2[i].rp.d1[k] += di;
-                b2[j].rp.d1[k] += dj;
-            }
-            let o2 = observe(&b2);
-            res.executions += 1;
+        for mode in [VerifyAction::VerifyOnly, VerifyAction::RecoverAndVerify] {
             res.transitions += 1;
+            res.executions += 3;
             res.validated += 1;
-            *res.outcome_counter(if o2.accepted { "adaptive-accepted" } else { "adaptive-rejected" }) += 1;
-            let gcoord = o2.residual.as_ref().map(|r| r.coeff(gk)).unwrap_or(Scalar::ZERO);
-            if o2.accepted {
-                res.violate(format!("step{}", step), format!("batch with offsetting defects on G{} was accepted", k));
-            } else if gcoord == Scalar::ZERO {
-                res.violate(
-                    format!("step{}", step),
-                    format!("offsetting defects cancelled on the G{} coordinate of the compared element (weights were predictable from earlier runs)", k),
-                );
-            }
-            // next step adapts to the weights just observed (for the shifted proofs)
-            if variant != "reversed-order" {
-                obs = o2;
-                batch_keep_shift(&mut delta_i);
+            match three_run_attack(&batch, i, j, k, mode, variant == "reversed-order") {
+                Err(e) => res.violate(format!("{}/setup", mode_name(mode)), e),
+                Ok((accepted, g)) => {
+                    *res.outcome_counter(if accepted { "adaptive-accepted" } else { "adaptive-rejected" }) += 1;
+                    if accepted || g == Scalar::ZERO {
+                        res.violate(
+                            mode_name(mode),
+                            format!("defects sized from the factors observed on two earlier runs cancel on G{} in a batch of otherwise valid proofs (accepted = {})", k, accepted),
+                        );
+                    }
+                },
             }
         }
         res
@@ -325,9 +343,10 @@ pub fn run(rep: &mut Report) {
                 and batches in which every member occurs twice): weights read as \
                 marker coefficients of the compared element; (1) every weight nonzero and the compared element == sum_i w_i x reference \
                 relation_i; (2) every ordered pair (i,j) x every response scalar of either member: +1 changes w_i/w_j; (3) adaptive \
-                cancellation histories of depth 3 for every pair and blinding coordinate k: offsets computed from the previously \
-                observed factors (fix-first-adapt-second, symmetric, identical proofs, reversed order) must be rejected with a nonzero \
-                G_k coordinate"
+                cancellation histories of three runs for every ordered pair and blinding coordinate k, on otherwise valid members: \
+                runs A and B read each member's factor from a single shifted response, run C submits offsets that would cancel if \
+                those factors were used again (plain, identical proofs, reversed order; both modes) and must be rejected with a \
+                nonzero G_k coordinate"
         .into();
     rep.assume("weights are observed over the free-module group; the weight derivation does not depend on the group backend");
     let thorough = rep.tier.thorough();
@@ -349,7 +368,7 @@ pub fn run(rep: &mut Report) {
                     continue;
                 }
                 for k in 0..d {
-                    for variant in ["fix-first-adapt-second", "symmetric", "identical-proofs", "reversed-order"] {
+                    for variant in ["plain", "identical-proofs", "reversed-order"] {
                         cases.push(adaptive_case(d, size, i, j, k, variant));
                     }
                 }
@@ -357,6 +376,7 @@ pub fn run(rep: &mut Report) {
         }
     }
     rep.explore("C08", cases);
+    rep.expect_outcome("explored");
     rep.expect_sub_outcome("ratio-comparisons");
     rep.expect_sub_outcome("adaptive-rejected");
 }
